@@ -10,6 +10,8 @@ package main
 //   - a scripted fake Kafka broker on loopback that reads the proxy's produce request and answers as told.
 // Every upload shape x client input x broker reply x S3 fault of the bounded product is executed; waits are
 // only "the handler returned" (the broker either answers or closes, nothing depends on timeouts).
+// Sessions are also run with parts that are sent twice (a refused / failed / duplicate PUT before the
+// accepted one): zz_verif_c32_retry_test.go.
 
 import (
 	"bytes"
@@ -55,6 +57,18 @@ type c32Case struct {
 	S3Fault     string     `json:"s3_fault"`     // "", or the s3API operation that fails once
 	Partition   int32      `json:"partition"`
 	WithKey     bool       `json:"with_key"`
+	// session: Retry[i] = "" or the kind of the one extra PUT the client makes before the accepted
+	// PUT of part i+1 (see c32RetryKinds); nil = every part is sent exactly once
+	Retry []string `json:"retry,omitempty"`
+}
+
+func (c c32Case) hasRetry() bool {
+	for _, k := range c.Retry {
+		if k != "" {
+			return true
+		}
+	}
+	return false
 }
 
 func (c c32Case) total() int64 {
@@ -161,13 +175,23 @@ type c32Result struct {
 	Sig        string
 	NonTrivial bool
 	Success    bool
-	Err        error // harness error, never a verdict
+	Attempts   []string // extra PUTs: "kind=status"
+	Err        error    // harness error, never a verdict
 }
 
 func c32Do(h http.Handler, method, path string, hdr map[string]string, body io.Reader) (rec *httptest.ResponseRecorder, panicked any) {
+	return c32DoCL(h, method, path, hdr, body, -1)
+}
+
+// c32DoCL: declared > = 0 sets the request's declared Content-Length (body may deliver less).
+func c32DoCL(h http.Handler, method, path string, hdr map[string]string, body io.Reader, declared int64) (rec *httptest.ResponseRecorder, panicked any) {
 	req := httptest.NewRequest(method, path, body)
 	for k, v := range hdr {
 		req.Header.Set(k, v)
+	}
+	if declared >= 0 {
+		req.ContentLength = declared
+		req.Header.Set("Content-Length", fmt.Sprint(declared))
 	}
 	rec = httptest.NewRecorder()
 	func() {
@@ -197,6 +221,8 @@ func (e *c32Env) runCase(c c32Case) (res c32Result) {
 		kindKey = "multipart"
 	}
 	listClass := "-"
+	var retrySig []string // extra PUTs and the statuses they and the following accepted PUT got
+	var segs []c32Seg     // every part PUT body of the conversation, in the order sent
 	var final *httptest.ResponseRecorder
 	total := c.total()
 	alg := c.ChecksumAlg
@@ -281,20 +307,55 @@ func (e *c32Env) runCase(c c32Case) (res c32Result) {
 		}
 		etags := map[int32]string{}
 		var off int64
+		if c.hasRetry() && (len(c.Retry) != len(c.Sizes) || ir.PartSize != c32MiB5) {
+			res.Err = fmt.Errorf("retry plan %v does not fit sizes %v / part_size %d", c.Retry, c.Sizes, ir.PartSize)
+			return
+		}
 		for i, sz := range c.Sizes {
 			pn := int32(i + 1)
+			if c.hasRetry() && c.Retry[i] != "" {
+				// one extra PUT before the accepted one
+				at, ok := c32PlanAttempt(c.Retry[i], c.Sizes, i, ir.PartSize)
+				if !ok {
+					res.Err = fmt.Errorf("retry kind %q cannot be produced before part %d of %v", c.Retry[i], pn, c.Sizes)
+					return
+				}
+				if at.S3Fail != "" {
+					fs.failNext(at.S3Fail)
+				}
+				rec, p := c32DoCL(h, http.MethodPut, c32PartPath(ir.UploadID, at.PartNumber), nil, at.body(), at.Declared)
+				fs.failNext("")
+				if p != nil {
+					add("multipart-handler-panic", "handleHTTPUploadPart panicked on a %s PUT: %v", at.Kind, p)
+					res.Sig = "session|panic"
+					return
+				}
+				segs = append(segs, c32Seg{Off: at.Off, End: at.End, Class: c32RetryClass(at.Kind)})
+				retrySig = append(retrySig, fmt.Sprintf("%d:%s=%d/%s", pn, at.Kind, rec.Code, c32ErrCode(rec.Body.Bytes())))
+				res.Attempts = append(res.Attempts, fmt.Sprintf("%s=%d", at.Kind, rec.Code))
+				if rec.Code == 200 {
+					var pr lfsUploadPartResponse
+					if err := json.Unmarshal(rec.Body.Bytes(), &pr); err == nil && pr.ETag != "" {
+						etags[at.PartNumber] = pr.ETag
+					}
+				}
+			}
 			if c.S3Fault == "UploadPart" && i == len(c.Sizes)-1 {
 				fs.failNext(c.S3Fault)
 			}
-			rec, p := c32Do(h, http.MethodPut, fmt.Sprintf("/lfs/uploads/%s/parts/%d", ir.UploadID, pn), nil, &c32Gen{off, off + sz})
+			rec, p := c32Do(h, http.MethodPut, c32PartPath(ir.UploadID, pn), nil, &c32Gen{off, off + sz})
 			if p != nil {
 				add("multipart-handler-panic", "handleHTTPUploadPart panicked: %v", p)
 				res.Sig = "session|panic"
 				return
 			}
+			segs = append(segs, c32Seg{Off: off, End: off + sz, Accepted: rec.Code == 200})
+			if c.hasRetry() {
+				retrySig = append(retrySig, fmt.Sprintf("%d=%d", pn, rec.Code))
+			}
 			off += sz
 			if rec.Code != 200 {
-				if c.S3Fault == "UploadPart" && rec.Code >= 400 {
+				if (c.S3Fault == "UploadPart" || c.hasRetry()) && rec.Code >= 400 {
 					continue // the part is missing; completion below must not succeed
 				}
 				res.Err = fmt.Errorf("part %d unexpectedly failed: %d %s", pn, rec.Code, rec.Body.String())
@@ -351,8 +412,8 @@ func (e *c32Env) runCase(c c32Case) (res c32Result) {
 
 	events := e.broker.drain()
 	status := final.Code
-	res.Sig = fmt.Sprintf("%s|n=%d|sum=%s/%s|list=%s|broker=%s|s3=%s|status=%d/%s", c.Kind, len(c.Sizes), c.Checksum, c.ChecksumAlg, listClass, c.Broker, c.S3Fault, status, c32ErrCode(final.Body.Bytes()))
-	res.NonTrivial = c.Broker != "ok" || c.S3Fault != "" || c.Checksum == "wrong" || (c.Kind == "session" && listClass != "all") || total == 0
+	res.Sig = fmt.Sprintf("%s|n=%d|sum=%s/%s|list=%s|broker=%s|s3=%s|retry=%s|status=%d/%s", c.Kind, len(c.Sizes), c.Checksum, c.ChecksumAlg, listClass, c.Broker, c.S3Fault, c32RetrySig(retrySig), status, c32ErrCode(final.Body.Bytes()))
+	res.NonTrivial = c.Broker != "ok" || c.S3Fault != "" || c.Checksum == "wrong" || (c.Kind == "session" && listClass != "all") || total == 0 || c.hasRetry()
 	if status >= 400 {
 		return // the client got an error status: nothing is claimed
 	}
@@ -378,7 +439,17 @@ func (e *c32Env) runCase(c c32Case) (res c32Result) {
 		if c.Kind == "session" && (listClass == "subset" || listClass == "subset-dup") {
 			key = "multipart-partial-part-list-accepted"
 		}
-		add(key, "status %d, envelope size=%d sha256=%s but object %q has size=%d sha256=%s (completion list %v of %d uploaded parts)", status, env.Size, env.SHA256, env.Key, size, sum, c.Complete, len(c.Sizes))
+		why := ""
+		if c.hasRetry() {
+			// name the mechanism: which extra PUT's bytes does the envelope digest cover?
+			if cl := c32DiagnoseDigest(segs, env.SHA256); cl != "" {
+				key = "multipart-digest-includes-extra-attempt-" + cl
+				why = fmt.Sprintf("; the envelope SHA-256 is the digest of the accepted part bodies plus the body of an extra PUT (%s) that is not part of the object; PUTs: %s", cl, c32RetrySig(retrySig))
+			} else {
+				why = "; PUTs: " + c32RetrySig(retrySig)
+			}
+		}
+		add(key, "status %d, envelope size=%d sha256=%s but object %q has size=%d sha256=%s (completion list %v of %d uploaded parts)%s", status, env.Size, env.SHA256, env.Key, size, sum, c.Complete, len(c.Sizes), why)
 	}
 	// (2) the broker acknowledged the envelope record without error
 	var ev *c32Event
@@ -573,6 +644,8 @@ func c32Cases(thorough bool) []c32Case {
 			}
 		}
 	}
+	// sessions in which parts are sent twice (see zz_verif_c32_retry_test.go)
+	out = append(out, c32RetryCases(thorough)...)
 	if thorough {
 		// three-part sessions: 5 MiB + 5 MiB + 1, every list of length 0..4 over {1,2,3}
 		for _, l := range c32Lists(3, 4) {
@@ -594,17 +667,20 @@ type c32Found struct {
 func TestVerifC32(t *testing.T) {
 	rep := vh.New(t, "C32")
 	defer rep.Finish()
-	rep.Rule = "cases = upload shape (single-shot sizes 0/1/1000/5MiB+1; sessions of 1, 2 (thorough 3) parts) x client checksum (absent/right/wrong, sha256/md5/none) x completion part list (every sequence over the uploaded part numbers up to length parts+1, wrong/foreign etags, unknown part numbers) x scripted broker reply x one S3 operation failure; each case is one complete HTTP conversation on fresh real handlers. Outcome signature = all case dimensions (completion list by class) + final HTTP status + error code. Non-trivial = broker reply other than success, an S3 failure, a wrong checksum, an empty body, or a completion list other than exactly the uploaded parts."
+	rep.Rule = "cases = upload shape (single-shot sizes 0/1/1000/5MiB+1; sessions of 1, 2 (thorough 3) parts) x client checksum (absent/right/wrong, sha256/md5/none) x completion part list (every sequence over the uploaded part numbers up to length parts+1, wrong/foreign etags, unknown part numbers) x scripted broker reply x one S3 operation failure; plus sessions in which parts are sent twice: for every part independently none or one extra PUT before the accepted PUT (S3 UploadPart fails without / after storing the part, body truncated at half / one byte short of its Content-Length, part_size+1 bytes, one byte beyond the declared size, a non-final body below 5 MiB, empty body, part number n+1, the previous part again), every producible combination with >= 1 extra PUT, x checksum x broker ok / error; each case is one complete HTTP conversation on fresh real handlers. Outcome signature = all case dimensions (completion list by class, extra PUTs with the status each PUT got) + final HTTP status + error code. Non-trivial = broker reply other than success, an S3 failure, a wrong checksum, an empty body, a completion list other than exactly the uploaded parts, or >= 1 extra PUT."
 	rep.Assumptions = []string{
 		"fake s3API follows S3 multipart semantics: CompleteMultipartUpload needs a non-empty, strictly ascending part list whose etags match uploaded parts, every listed part but the last >= 5 MiB, and assembles exactly the listed parts (a subset is legal); PutObject/UploadPart are atomic",
 		"fake broker: one produce request per connection is read completely before it replies or closes (except close-on-accept); 'acknowledged without error' = a well-formed ProduceResponse v9 holding the request's topic/partition with error code 0",
 		"only the final response of a conversation (POST /lfs/produce or POST .../complete) is an upload success report; init/part responses carry no envelope",
+		"a part body cut short by a client disconnect is modelled as net/http presents it to a handler: the delivered bytes, then io.ErrUnexpectedEOF from r.Body (the handlers are called through the mux, not through a TCP server); a client whose PUT was refused or failed sends the same part again with the correct bytes and uses the etag of the last 200 answer for that part number",
 	}
 	thorough := vh.Thorough()
 	cases := c32Cases(thorough)
 	rep.SetInfo("cases", len(cases))
 	rep.SetInfo("broker_replies", c32BrokerModes(thorough))
 	rep.SetInfo("two_part_completion_lists", len(c32Lists(2, 3)))
+	rep.SetInfo("extra_put_kinds", c32RetryKinds)
+	rep.SetInfo("extra_put_plans_5MiB+1", len(c32RetryPlans([]int64{c32MiB5, 1}, c32MiB5)))
 
 	var rc c32Case
 	if ok, err := vh.LoadReplay(&rc); ok {
@@ -674,6 +750,15 @@ func TestVerifC32(t *testing.T) {
 				atomic.AddInt64(&evals, 1)
 				if r.Success {
 					atomic.AddInt64(&successes, 1)
+				}
+				if c.hasRetry() {
+					rep.Count("retry_sessions", 1)
+					if r.Success {
+						rep.Count("retry_sessions_success", 1)
+					}
+					for _, a := range r.Attempts {
+						rep.Count("extra_put_"+a, 1)
+					}
 				}
 				rep.Outcome(r.Sig, r.NonTrivial)
 				if r.NonTrivial && len(r.Viols) == 0 && i%97 == 5 && atomic.AddInt64(&sampled, 1) <= 5 {
